@@ -463,11 +463,62 @@ def gen_case(seed, idx):
     rng = C.rng_for(seed, "c15case", idx)
     big = idx % 40 == 7
     if big:
-        return {"seed": seed, "idx": idx, "big": True, "n_services": 2, "browse_own": rng.random() < 0.5, "lookup": True, "start": rng.choice([0, 300]),
+        return {"seed": seed, "idx": idx, "big": True, "v6": idx % 6 == 4, "threaded": idx % 5 == 2, "n_services": 2, "browse_own": rng.random() < 0.5, "lookup": True, "start": rng.choice([0, 300]),
                 "maxdelay": rng.choice([0, 5]), "tail": rng.choice([2000, 20000, 400000]), "n_items": rng.choice([8, 15]), "canary_id": 4242 + idx}
-    return {"seed": seed, "idx": idx, "n_services": rng.choice([1, 1, 2]), "browse_own": rng.random() < 0.4,
+    return {"seed": seed, "idx": idx, "v6": idx % 6 == 4, "threaded": idx % 5 == 2, "n_services": rng.choice([1, 1, 2]), "browse_own": rng.random() < 0.4,
             "lookup": rng.random() < 0.8, "start": rng.choice([0, 0, 30, 300, 2000, 20000]), "maxdelay": rng.choice([0, 5, 20]),
             "tail": rng.choice([0, 2000, 20000, 400000, 4000000]), "n_items": rng.choice([5, 15, 30, 60]), "canary_id": 4242 + idx}
+
+
+# ------------------------------------------------------------------------------------------
+# a dual-stack host: IPv6 wildcard listen socket, IPv4 and IPv6 respond sockets (review 2 finding 5; seeded C15-w5-seed3)
+
+V6_ASKER = ("fe80::1c2d:3eff:fe4f:5a6b", 50123, 0, 3)
+
+
+def make_host6(sim):
+    """`create_sockets` of an `ip_version=All` instance: a listen socket bound to `[::]:5353` (flow info 0, scope id 0 -- multicast-delivered
+    queries arrive here, and unicast replies leave through it), an IPv4 respond socket and an IPv6 respond socket bound to the
+    interface's link-local address (scope id 3).  As on a real dual-stack wildcard socket, IPv4 peers appear as `::ffff:a.b.c.d`."""
+    import errno
+    from unittest import mock
+    from . import vsim
+    from zeroconf import IPVersion, Zeroconf
+    import zeroconf._core as core
+
+    class Sock6(vsim.FakeSock):
+        def __init__(self, fileno, addr):
+            super().__init__(fileno, addr)
+            self.family = socket.AF_INET6
+
+    class KTransport(vsim.FakeTransport):
+        """`sendto` as the kernel treats IPv6 destinations: a link-local destination without a scope id cannot be routed from a socket
+        that is not bound to an interface (EINVAL, handed to `protocol.error_received` as asyncio does); every send is logged with its
+        full address tuple"""
+
+        def sendto(self, data, addr=None):
+            sn = self.sock.getsockname()
+            if addr is not None and len(addr) == 4 and addr[0].lower().startswith("fe80:") and addr[3] == 0 and (len(sn) < 4 or sn[3] == 0):
+                sim.v6log.append((sim.now(), tuple(addr), bytes(data), "EINVAL"))
+                self.protocol.error_received(OSError(errno.EINVAL, "Invalid argument"))
+                return
+            if addr is not None and len(addr) == 4:
+                sim.v6log.append((sim.now(), tuple(addr), bytes(data), "sent"))
+            super().sendto(data, addr)
+
+    sim.v6log = []
+    host = vsim.Host(sim, "A", SELF_IP)
+    sock4 = vsim.FakeSock(10, (SELF_IP, 5353))
+    lsock = Sock6(11, ("::", 5353, 0, 0))
+    rsock6 = Sock6(12, ("fe80::1", 5353, 0, 3))
+    for x in (sock4, lsock, rsock6):
+        vsim._sock_host[id(x)] = host
+    host.sock, host.lsock = sock4, lsock
+    patcher = mock.patch.object(vsim, "FakeTransport", KTransport)
+    patcher.start()
+    with mock.patch.object(core, "create_sockets", lambda *a, **k: (lsock, [sock4, rsock6])):
+        host.zc = Zeroconf(interfaces=[SELF_IP], ip_version=IPVersion.All)
+    return host, patcher
 
 
 # ------------------------------------------------------------------------------------------
@@ -491,6 +542,7 @@ def simulate(case):
     rng = C.rng_for(case["seed"], "c15items", case["idx"])
     obs = {"fam": [], "items": [], "escapes": [], "callbacks": [], "blocks": [], "oversize": [], "live": 0, "kinds": {}}
     saved = []
+    cleanup = []
     cur = {"down": None, "ucast": None}
 
     def patch(cls, name, fn):
@@ -594,10 +646,19 @@ def simulate(case):
         patch(qhm.QueryHandler, "handle_assembled_query", w_haq)
         patch(qhm.QueryHandler, "async_response", w_response)
         patch(lsm.AsyncListener, "_respond_query", w_tc)
-        a = sim.make_host("A", SELF_IP)
+        v6 = case.get("v6", case["idx"] % 6 == 4)
+        if v6:
+            a, patcher = make_host6(sim)
+            cleanup.append(patcher.stop)
+        else:
+            a = sim.make_host("A", SELF_IP)
         zc = a.zc
         await zc.async_wait_for_start()
-        lst = zc.engine.protocols[0]
+        lst = zc.engine.protocols[0]      # the listener of the listen socket (dual-stack host) / of the one socket
+
+        def map_src(src):
+            # every datagram of a dual-stack host arrives on `[::]:5353`: IPv4 peers as IPv4-mapped 4-tuples
+            return ("::ffff:" + src[0], src[1], 0, 0) if v6 and len(src) == 2 else tuple(src)
         live = []
 
         def on_send(t, srch, data, addr):
@@ -614,6 +675,7 @@ def simulate(case):
             """one datagram_received block, observed; returns the escaping exception's name or None"""
             if a.transport is None or a.transport.closed:
                 return None
+            src = map_src(src)
             before = lst.last_message
             ntimer = lst._timers.get(src[0])
             ndraw = len(sim.draws)
@@ -790,7 +852,7 @@ def simulate(case):
                     obs["escapes"].append({"index": len(obs["items"]) - 1, "exc": r, "kind": kind, "len": len(data)})
                 if data == fam_q:
                     obs["fam"].append({"index": len(obs["items"]) - 1, "t": sim.now(), "src": list(src),
-                                       "replied": replied_to(n_log, src) if src[1] not in (5353, 0) and ":" not in src[0] else None})
+                                       "replied": replied_to(n_log, map_src(src)) if src[1] not in (5353, 0) and ":" not in src[0] else None})
         streaming["on"] = False
         if obs.get("hung"):
             # a call into the library did not return: the verdict is in, the rest of the case (tail, canaries) would only hang again
@@ -850,6 +912,16 @@ def simulate(case):
             if c[3].lower() == (CYC + "." + TB).lower() and c[2] in ("add", "rem"):
                 held[c[1]] = c[2]
         obs["canary_c"] = sorted(t for t, e in held.items() if e == "add")
+        if v6:
+            # ---- canary 1c (dual-stack host): a legacy one-shot query from a link-local asker, heard on the wildcard listen socket, must be
+            # answered to exactly the asker's address tuple -- address, port, flow info and scope id: without the scope id the kernel cannot
+            # route the reply (EINVAL), with another one it leaves through the wrong interface
+            n0 = len(sim.v6log)
+            r = deliver(hdr((cid + 2) & 0xFFFF, 0, 1) + q(labels_of(infos[0].name), 33), V6_ASKER)
+            obs["canary_v6_raised"] = r
+            sent = sim.v6log[n0:]
+            obs["canary_v6"] = any(to == V6_ASKER and how == "sent" and len(d_) >= 12 and d_[2] & 0x80 for (_t, to, d_, how) in sent)
+            obs["canary_v6_sends"] = [[list(to), how] for (_t, to, d_, how) in sent][:4]
         if lookup is not None:
             await lookup
         obs["lookup"] = lookup_res
@@ -870,6 +942,8 @@ def simulate(case):
     finally:
         for cls, name, orig in saved:
             setattr(cls, name, orig)
+        for f in cleanup:
+            f()
     errs = []
     for e in sim.errors:
         ex = e.get("exception")
@@ -926,6 +1000,11 @@ def judge(obs):
                     "latest Added/Removed callback for it is Added are %s, expected both" % obs.get("canary_c")))
     if obs.get("canary_a") != ["h", "l"]:
         bad.append(("C15:canary-announcement-unseen", "a well-formed announcement sent after the stream produced Added in %s, expected both browsers" % obs.get("canary_a")))
+    if obs.get("canary_v6_raised"):
+        bad.append(("C15:escape:%s" % obs["canary_v6_raised"], "%s escaped datagram_received on the IPv6 canary query" % obs["canary_v6_raised"]))
+    if obs.get("canary_v6") is False:
+        bad.append(("C15:canary-v6-legacy-query-unanswered", "a well-formed legacy query from the link-local asker %s, heard on the wildcard IPv6 listen socket after the "
+                    "stream, got no reply addressed to that tuple (address, port, flow info, scope id); sends of the block: %s" % (list(V6_ASKER), obs.get("canary_v6_sends"))))
     if obs.get("canary_t") is False:
         bad.append(("C15:canary-announcement-unseen-threaded", "a well-formed announcement sent after the stream did not reach the handler thread of the threaded ServiceBrowser"))
     if obs.get("lookup", {}).get("raised"):
